@@ -262,8 +262,19 @@ def native_filters(ctx):
     return False, spath, 'held natively'
 
 
+def check_filtered_stay_filtered(ctx):
+    """removed / replaced items stay so across a reopen: recovery must not re-apply a journal record that was flushed (and then filtered)"""
+    from . import recov, c04
+    shape = ((1, 0),) if ctx.tier == 'quick' else ((1, 0), (1, 0))
+    ex, paths, env = recov.run_recover(ctx, n_ks=2, shape=shape, symbolic_kinds=True)
+    ob = ctx.ob('recover/filtered-stay-filtered', 'Database::recover: a record that was flushed before is never applied again, even when the compaction filter has since removed the newest items '
+                'from the tables (ghost mark: highest flushed seqno per keyspace)', ['db::<impl>::recover'])
+    c04.check_flushed_ghost(ctx, ex, paths, env, ob, 'recover/filter-removed-newest-item-replayed')
+
+
 def run(ctx):
     ctx.assumptions += [
+        'recover/filtered-stay-filtered: symbolic recovered state of recov.py (2 keyspaces, 1-2 journal batches, symbolic ids / seqnos / persisted marks / flushed-up-to ghost marks)',
         'the assigner and the factories are unknown callables (uninterpreted); handle identity through Arc clones',
         'verdict semantics (keep/remove/replace during compaction) are lsm-tree behaviour: contract E5, not decided here',
     ]
@@ -272,6 +283,7 @@ def run(ctx):
     check_builder(ctx)
     check_from_kvs_never(ctx)
     check_forward(ctx)
+    check_filtered_stay_filtered(ctx)
     for o in ctx.obligations:
         ctx.samples.append(o.as_dict())
     return ctx.finish()
